@@ -300,6 +300,7 @@ func runC14(c *Ctx) {
 	runConfSubProvenance(c, "R6")
 	runC14Reflect(c)
 	runC14Round3(c)
+	runC14Round4(c)
 }
 
 func nonDebugRefs(refs []ssa.Instruction) []ssa.Instruction {
